@@ -439,4 +439,50 @@ theorem foldlM_addRow (f : Facts) (d : Data) (L : Nat) (hn : d.nchar = L) (hg : 
     | nil => simp
     | cons x xs => simp
 
+/-- the end of `Parse` on what the top-level loop collected from a written file -/
+theorem build_written (f : Facts) (o : POpts) (ho : normAlphabet o.alphabet = 2) (L : Nat) (hL1 : 1 ≤ L)
+    (dt : Seq) (rows : List XRow) (hne : rows ≠ []) (hlen : ∀ r ∈ rows, r.2.length = L)
+    (hd : Spec.Fmt.distinct (rows.map (·.1)) = true) (hdot : ∀ r ∈ rows, ∀ c ∈ r.2, c ≠ POINT)
+    (alp : Nat) (halp : alphabetFromString dt = alp) (a : Aln)
+    (hfin : Bag.finish { ignore := normIgnore o.ignore, length := (L : Int), rows := rows } alp = some a) :
+    build f o { data := some { rows := rows, nchar := L, ntax := rows.length, datatype := dt } } = .ok a := by
+  unfold build
+  have hrows : ∀ r ∈ rows, r.2 ≠ [] ∧ r.2.length = L := by
+    intro r hr
+    refine ⟨?_, hlen r hr⟩
+    intro e
+    have := hlen r hr
+    rw [e] at this
+    simp at this
+    omega
+  have hfold := foldlM_addRow f { rows := rows, nchar := L, ntax := rows.length, datatype := dt } L rfl rfl rfl rfl
+    rows { ignore := normIgnore o.ignore } hrows (Or.inl ⟨rfl, rfl⟩) (by intro _ _ q hq; cases hq) hd
+  have hemp : rows.isEmpty = false := by
+    cases rows with
+    | nil => exact absurd rfl hne
+    | cons _ _ => rfl
+  simp only [bind, Except.bind, pure, Except.pure, hemp, Bool.false_eq_true, if_false]
+  simp only [bne_self_eq_false, Bool.false_and, Bool.and_false, Bool.false_eq_true, if_false, hfold]
+  simp only [hne, if_false, List.nil_append, replaceMatchChars_id rows hdot, ho, BOTH, beq_self_eq_true, if_true,
+    halp, hfin]
+
+/-- `parse` on the written file, given what the final alphabet step yields -/
+theorem parse_written (f : Facts) (o : POpts) (ho : normAlphabet o.alphabet = 2) (n L : Nat) (hn : n = rows.length)
+    (hnmax : n ≤ 9223372036854775807) (hLmax : L ≤ 9223372036854775807) (hL1 : 1 ≤ L)
+    (dt : Seq) (hdt : Run dt) (hc : classify dt = ⟨.ident, dt⟩) (hne : rows ≠ [])
+    (hok : ∀ r ∈ rows, RowOk f r) (hlen : ∀ r ∈ rows, r.2.length = L)
+    (hd : Spec.Fmt.distinct (rows.map (·.1)) = true) (hdot : ∀ r ∈ rows, ∀ c ∈ r.2, c ≠ POINT)
+    (alp : Nat) (halp : alphabetFromString dt = alp) (a : Aln)
+    (hfin : Bag.finish { ignore := normIgnore o.ignore, length := (L : Int), rows := rows } alp = some a) :
+    Nexus.parse f o (fileText n L dt rows) = .ok a := by
+  have rN : Run kwNexus := ⟨by decide, by decide⟩
+  have cN : classify kwNexus = ⟨.nexus, kwNexus⟩ := by decide
+  unfold Nexus.parse parseR fileText
+  simp only [sIW_run kwNexus rN NL identChar_NL (by decide), cN, bne_self_eq_false, Bool.false_eq_true, if_false]
+  rw [show ∀ (X : Seq), (NL :: X).length + 3 = X.length + 4 from fun X => by simp only [List.length_cons]]
+  subst hn
+  simp only [topLoop_written f _ rows.length L hnmax hLmax dt hdt hc rows hok hd, bind, Except.bind]
+  rw [build_written f o ho L hL1 dt rows hne hlen hd hdot alp halp a hfin]
+  rfl
+
 end Gv.Proofs.NexusRT
